@@ -400,14 +400,42 @@ func planShape(n hybridqp.QueryNode) string {
 	return strings.TrimPrefix(fmt.Sprintf("%T", n), "*executor.") + "(" + strings.Join(parts, ",") + ")"
 }
 
+// guard runs one codec case: a panic or a decoder that does not return (a length read from the wrong place can make it
+// allocate or loop for minutes) is an oracle failure of that case, not a crash of the harness
+var timedOut bool
+
 func guard(c *Case, f func()) {
-	defer func() {
-		if r := recover(); r != nil {
-			c.Oracle = fmt.Sprintf("panic: %v", r)
-		}
+	lc := *c
+	work := c
+	lastInput = nil
+	done := make(chan struct{})
+	go func() {
+		defer close(done)
+		defer func() {
+			if r := recover(); r != nil {
+				work.Oracle = fmt.Sprintf("panic: %v", r)
+				if lastInput != nil && len(work.Chunks) == 0 {
+					work.Chunks = []J{lastInput}
+				}
+			}
+		}()
+		f()
 	}()
-	f()
+	select {
+	case <-done:
+	case <-time.After(20 * time.Second):
+		// the worker may still be writing to *c: report on a copy and stop generating (see main)
+		lc.Oracle = "the codec did not return within 20 s (kind " + lc.Kind + ")"
+		timedOut = true
+		if lastInput != nil {
+			lc.Chunks = []J{lastInput}
+		}
+		stuck = &lc
+	}
 }
+
+var stuck *Case
+var lastInput J // the object handed to the codec last (reported when the codec hangs)
 
 func planCase(g *G) Case {
 	c := Case{Kind: "plan"}
@@ -696,6 +724,9 @@ func (g *G) genChunk() *executor.ChunkImpl {
 		g.fillColumn(extra, influxql.Boolean, rows, 0)
 		chunk.AddColumn(extra)
 	}
+	if g.r.Chance(1, 8) {
+		chunk.AddColumn(nil) // an empty column slot (the codec writes a zero size for it)
+	}
 	if g.r.Chance(1, 3) {
 		chunk.AddDim(executor.NewColumnImpl(influxql.String))
 		g.fillColumn(chunk.Dim(0), influxql.String, rows, 0)
@@ -763,6 +794,7 @@ func chunkCase(g *G) Case {
 				c.Oracle = fmt.Sprintf("Size() %d differs from the marshalled length %d", ch.Size(), len(buf))
 				return
 			}
+			lastInput = J{"obj": dumpChunk(ch), "bytes": hex.EncodeToString(buf)}
 			back := &executor.ChunkImpl{}
 			if err := back.Unmarshal(buf); err != nil {
 				c.Oracle = "unmarshal error: " + err.Error()
